@@ -186,3 +186,4 @@ package retry
 //@ spec func notInitKind() string { return BoMaxRegionNotInitialized.name }
 //@ spec func tikvRPCKind() string { return BoTiKVRPC.name }
 //@ spec func tiflashRPCKind() string { return BoTiFlashRPC.name }
+//@ spec func regionMissKind() string { return BoRegionMiss.name }
